@@ -45,7 +45,7 @@ CFG = {
     "translated": ["controlledSelector.shouldSwitchSelectedPair", "Agent.needsToCheckPriorityOnNominated",
                    "controlledSelector.shouldAcceptNomination", "controllingSelector.isNominatable",
                    "controllingSelector.ContactCandidates", "controlledSelector.ContactCandidates",
-                   "controllingSelector.HandleBindingRequest"],
+                   "controllingSelector.HandleBindingRequest", "netAddrToAddrPort", "portFitsInUint16"],
     "trusted_base": ["HMAC / pion/stun message decoding modelled as perfect",
                      "agent model tied to code by differential correspondence (component agent), not by proof"],
     "assumptions": ["no application binding-request handler (as the property states)", "UDP candidates only; mDNS disabled",
